@@ -96,3 +96,24 @@ Proof. vm_compute. reflexivity. Qed.
 Example compile_never_panics_refuted_pinned_no_indexed :
   build_with pinned_bfacts (mkInput (SystemDic m32) [row (-1) (-1) [] true]) = Panic.
 Proof. vm_compute. reflexivity. Qed.
+
+(* ---- repeated compile calls on one builder ---- *)
+
+Definition code (r : res (dict * bool)) : Z := match r with Ok (_, c) => if c then 1 else 3 | Err => 0 | Panic => 2 end.
+
+(* non-vacuity: a failed call, then two successful ones on the same builder give the same complete dictionary *)
+Example ex_session :
+  map code
+      (session (fresh_builder ex_inp) 700 300 [450; 700; 10; 700]) = [0; 1; 0; 1].
+Proof. vm_compute. reflexivity. Qed.
+
+(* a write_to that moves the matrix out of the buffer (keeps_matrix = false): once a call got as far as the matrix (it
+   succeeded, or its sink failed at or behind byte `moff`), the next call reports success without the matrix bytes *)
+Example compile_idempotent_refuted_taking_write_to :
+  map code
+      (run_session gen_bfacts false (fresh_builder ex_inp) 700 300 [700; 700]) = [1; 3]
+  /\ map code
+      (run_session gen_bfacts false (fresh_builder ex_inp) 700 300 [299; 700]) = [0; 1]
+  /\ map code
+      (run_session gen_bfacts false (fresh_builder ex_inp) 700 300 [300; 700]) = [0; 3].
+Proof. vm_compute. repeat split. Qed.
